@@ -55,7 +55,7 @@ NS_PARAMS = ('quantized_sequence', 'note_sequence', 'sequence', 'base_note_seque
 
 
 def E(t):
-  return ast.parse(t, mode='eval').body
+  return U.E(t)
 
 
 def has(test, text, env=None, polarity=True):
@@ -314,7 +314,9 @@ def drums(ctx):
   ctx.ob('DRUM/sorted-by-step', fi, srt[0] if srt else fn, ok, 'the groups are visited in step order' if ok else 'the step groups are not sorted by step')
   flt = [n for n in ast.walk(fn) if isinstance(n, ast.ListComp) and norm_text(n.generators[0].iter).endswith('.notes')]
   t = norm_text(flt[0].generators[0].ifs[0]) if flt and flt[0].generators[0].ifs else ''
-  ok = 'is_drum or ignore_is_drum' in t and '.velocity' in t and 'quantized_start_step >= search_start_step' in t
+  okq = bool(flt and flt[0].generators[0].ifs) and any(has(c, 'N.quantized_start_step >= search_start_step', {flt[0].generators[0].target.id: E('N')})
+                                                      for c in conj(flt[0].generators[0].ifs[0]) if isinstance(c, ast.Compare))
+  ok = 'is_drum or ignore_is_drum' in t and '.velocity' in t and okq
   ctx.ob('DRUM/selection', fi, flt[0] if flt else fn, ok, 'drum (or all, if ignore_is_drum) notes with non-zero velocity from search_start_step on' if ok else 'the drum note selection changed: %s' % t)
   loop = next((n for n in fn.body if isinstance(n, ast.For) and isinstance(n.target, ast.Tuple)), None)
   ok = False
